@@ -209,7 +209,70 @@ func runC14(c *sim.Ctx) *sim.Violation {
 	for s := 0; s < steps && len(pool) > 0; s++ {
 		touched := -1
 		what := ""
-		switch t.Pick(3, 3, 3, 3, 3) {
+		switch t.Pick(3, 3, 3, 3, 3, 3) {
+		case 5:
+			// cross-feed: what one packet's accessor returns is handed to another
+			// packet's setter/adder (filters, payload, correlation data, password,
+			// auth data, the will); afterwards the two must stay independent under
+			// further adds - only the receiving packet counts as touched
+			i, j := t.Int(len(pool)), t.Int(len(pool))
+			if i != j {
+				if src, ok := pool[j].p.(*mq.Subscribe); ok && len(src.Filters()) > 0 && t.Bool(1, 2) {
+					// a brand-new SUBSCRIBE whose FIRST filters come from another packet
+					fresh := mq.NewSubscribe()
+					fresh.SetPacketID(uint16(1 + t.Int(1000)))
+					sim.Guard(func() { fresh.AddFilters(src.Filters()...) })
+					e := &poolEntry{p: fresh, how: fmt.Sprintf("NewSubscribe().AddFilters(#%d.Filters()...)", j)}
+					e.canon, e.deep = snapshot(fresh)
+					pool = append(pool, e)
+					touched = len(pool) - 1
+					what = e.how
+					c.Count("probe.cross-feed-filters-between-two-SUBSCRIBEs")
+					break
+				}
+				switch dst := pool[i].p.(type) {
+				case *mq.Subscribe:
+					if src, ok := pool[j].p.(*mq.Subscribe); ok && len(src.Filters()) > 0 {
+						sim.Guard(func() { dst.AddFilters(src.Filters()...) })
+						touched = i
+						what = fmt.Sprintf("#%d.AddFilters(#%d.Filters()...)", i, j)
+						c.Count("probe.cross-feed-filters-between-two-SUBSCRIBEs")
+					}
+				case *mq.Publish:
+					if src, ok := pool[j].p.(*mq.Publish); ok {
+						sim.Guard(func() { dst.SetPayload(src.Payload()); dst.SetCorrelationData(src.CorrelationData()) })
+						touched = i
+						what = fmt.Sprintf("#%d.SetPayload/SetCorrelationData(from #%d)", i, j)
+						c.Count("probe.cross-feed-byte-slices-between-two-packets")
+					}
+				case *mq.Connect:
+					if src, ok := pool[j].p.(*mq.Connect); ok {
+						sim.Guard(func() {
+							dst.SetPassword(src.Password())
+							dst.SetAuthData(src.AuthData())
+							if w := src.Will(); w != nil {
+								dst.SetWill(w)
+							}
+						})
+						touched = i
+						what = fmt.Sprintf("#%d.SetPassword/SetAuthData/SetWill(from #%d)", i, j)
+						c.Count("probe.cross-feed-byte-slices-between-two-packets")
+					}
+				}
+			}
+			if touched < 0 {
+				// make such pairs more likely later in the history
+				a := gen.Packet(t, gen.Cfg{CanSet: CanSet, NoHuge: true, Types: []byte{ref.Subscribe, ref.Subscribe, ref.Publish, ref.Connect}})
+				for k := 0; k < 2; k++ {
+					if p, _, err := buildGuard(a, t); err == nil {
+						e := &poolEntry{p: p, how: "constructed " + a.TypeName()}
+						e.canon, e.deep = snapshot(p)
+						pool = append(pool, e)
+					}
+				}
+				what = "add two more " + a.TypeName()
+				touched = len(pool) // nobody
+			}
 		case 4:
 			// receiver reuse: decode a frame of the same type into a packet that
 			// is already in use; nothing is demanded of the receiver, only that
